@@ -214,6 +214,7 @@ class Driver(object):
             k.child_write(ck, chan, bytes(data))
         for a in op['acts']:
             self.do_act(a)
+        k.trace.append(('endacts', self.opi - 1))              # harness marker: what follows comes from the loop itself
         for h in self.hooks:
             h(self, op)
 
